@@ -945,7 +945,7 @@ def main_check(prop, tier, seed, cfg, args):
         nb = args.runs if (only == 'B' and args.runs) else (14 if tier == 'quick' else 160)
         evp = os.path.join(env.scratch_root(), 'layerB-evidence.json')
         rc_b = runner.run_check(prop, tier, seed, nb, batch=1, workers=min(14, os.cpu_count() or 1),
-                                wall_cap=cfg.get('wall_cap', 3000), min_budget=6, min_wall=400,
+                                wall_cap=(500 if tier == 'quick' else 1300), min_budget=6, min_wall=400,
                                 params={'layer': 'B', 'ref_dir': ref, 'strace': strace},
                                 evidence_path=evp, label='layer B: real tool-chain')
         with open(evp) as f:
